@@ -1,8 +1,9 @@
 """C08 — every started session is accounted to a Stop, across outages and crashes."""
 import verif as V
+import locks
 
 PROP = "C08"
-SPEC = ["Bng.Spec.C08", "Bng.Spec.C08Names"]
+SPEC = ["Bng.Spec.C08", "Bng.Spec.C08Names"] + ["Bng.Spec.C08Locks"]
 MON = ["stop-unstarted", "stop-before-start", "dup-stop", "lost-stop", "identifiers", "gigawords"]
 COMPS = [
     V.Component("acct", monitors=MON),
@@ -78,11 +79,12 @@ ASSUME = [
     "sessions/ or in a sub-directory the recovery skips). "
     "known findings (not repaired): D24, KF-acct-recovery-volatile, KF-acct-start-window, KF-acct-direct-send — see known_findings.json",
 ]
+ASSUME = ASSUME + [locks.ASSUME]
 
 
 def run(tier, seed):
-    return V.standard_check(PROP, SPEC, COMPS, LEVEL, ASSUME, tier, seed)
+    return V.standard_check(PROP, SPEC, COMPS, LEVEL, ASSUME, tier, seed, pre=locks.with_locks())
 
 
 def replay(path):
-    return V.replay(PROP, COMPS, path, SPEC)
+    return V.replay(PROP, COMPS, path, SPEC, pre=locks.with_locks())
